@@ -96,6 +96,8 @@ type inlineStats struct {
 	Sites   int      `json:"call_sites_expanded"`
 	Left    []string `json:"calls_left_as_calls,omitempty"`
 	Rounds  int      `json:"rounds"`
+	// new struct types turned back into local variables (sroa.go)
+	Scalarised []string `json:"structs_scalarised,omitempty"`
 	Note    string   `json:"note,omitempty"`
 }
 
